@@ -653,6 +653,9 @@ class ProductState:
             assert isinstance(to, jnp.ndarray)
             operation.compute_dimensions(0, to)
         elif isinstance(operation._operation_type, CompositeOperationType):
+            # The expected operand types of an Expression live on the shared enum
+            # member, another Expression operation may have overwritten them
+            operation._operation_type.update(**operation.kwargs)
             assert len(states) == len(
                 operation._operation_type.expected_base_state_types
             )
